@@ -153,7 +153,7 @@ def batch_kernels_symbolic(ctx):
             runs.append(dict(inp, **sz))
         progs.append((pi, expr, phs))
         jobs.append(cexec.Job(tag=f"sym{pi}", expr=expr, runs=runs, kir_orders=0, no_exec=True,
-                              bounds_check=False))
+                              bounds_check=False, prep=_prep_dedup))
     res = cexec.run_jobs(ctx, jobs)
     dis = cases = 0
     for (pi, expr, phs), job, r in zip(progs, jobs, res):
@@ -191,7 +191,7 @@ def batch_isl(ctx):
         tags.append(("concrete", i))
     for pi, expr, phs in c16.sym_programs(ctx, 40 if ctx.thorough else 20):
         jobs.append(cexec.Job(tag=f"islsym{pi}", expr=expr, runs=[], bounds_check=True, check_cl=False,
-                              isl_only=True))
+                              isl_only=True, prep=_prep_dedup))
         tags.append(("symbolic", pi))
     res = cexec.run_jobs(ctx, jobs)
     dis = 0
